@@ -95,7 +95,7 @@ pub async fn run_case(setup: String, events: String, take: bool) -> String {
     let endpoint = builder.build();
 
     let ulog: UsageLog = Default::default();
-    let mut dialogs: Vec<Dialog> = vec![];
+    let mut dialogs: Vec<Option<Dialog>> = vec![];
     let mut local_tags: Vec<String> = vec![];
     let mut guards: Vec<Vec<Option<UsageGuard>>> = vec![];
 
@@ -187,7 +187,7 @@ pub async fn run_case(setup: String, events: String, take: bool) -> String {
             })));
         }
         guards.push(gs);
-        dialogs.push(dialog);
+        dialogs.push(Some(dialog));
     }
     let _ = SipUri::new; // keep import used
 
@@ -297,7 +297,7 @@ pub async fn run_case(setup: String, events: String, take: bool) -> String {
                 // a further usage is registered on dialog d (its number is the count of usages registered there so far)
                 let d: usize = p[1].parse().unwrap();
                 let u = guards[d].len();
-                let g = dialogs[d].register_usage(RecUsage { id: (d * 10 + u) as u32, log: ulog.clone(), take });
+                let g = dialogs[d].as_ref().expect("dialog dropped").register_usage(RecUsage { id: (d * 10 + u) as u32, log: ulog.clone(), take });
                 guards[d].push(Some(g));
                 outs.push("-".into());
             }
@@ -307,6 +307,15 @@ pub async fn run_case(setup: String, events: String, take: bool) -> String {
                 if let Some(g) = guards[d][u].take() {
                     drop(g);
                 }
+                outs.push("-".into());
+            }
+            "X" => {
+                // the application lets go of dialog d altogether (its usages first, then the dialog): a lost fork is released
+                let d: usize = p[1].parse().unwrap();
+                for g in guards[d].iter_mut() {
+                    drop(g.take());
+                }
+                drop(dialogs[d].take());
                 outs.push("-".into());
             }
             _ => panic!("bad event"),
